@@ -308,7 +308,9 @@ def run(res, tier, seed, shard, nshards):
 
     # (d) tunnel through the simulated network ------------------------------------
     def scen():
-        replies = ["200", "200-lower", "201", "204", "301", "407", "403", "404", "500", "503", "garbage", "eof", "200-extra-headers"]
+        replies = ["200", "200-lower", "201", "204", "301", "407", "403", "404", "500", "503", "garbage", "eof", "200-extra-headers",
+                   # a Content-Length (or Transfer-Encoding) on the 2xx reply to CONNECT means nothing (RFC 9110 9.3.6): the tunnel starts right behind the head
+                   "200-content-length", "200-content-length-0", "200-chunked"]
         creds = [None, ("user", "pass"), ("üser", "pässwörd"), ("user", None),
                  ("firstname.lastname@example-corporation.test", "tok_" + "A1b2C3d4" * 9), ("u" * 28, "p" * 29), ("u" * 28, "p" * 28),
                  # credentials whose base64 form uses the characters + and / (and padding of every length)
@@ -364,9 +366,12 @@ def tunnel_case(res, W, rng, reply, secure, cred, via, exempt=False):
                 return
             state["connect_req"] = bytes(buf[:i + 4])
             rest = bytes(buf[i + 4:])
-            if reply in ("200", "200-lower", "200-extra-headers"):
+            if reply.startswith("200"):
                 line = {"200": b"HTTP/1.1 200 Connection established\r\n\r\n", "200-lower": b"HTTP/1.0 200 ok\r\n\r\n",
-                        "200-extra-headers": b"HTTP/1.1 200 OK\r\nVia: 1.1 p\r\nProxy-Agent: x\r\n\r\n"}[reply]
+                        "200-extra-headers": b"HTTP/1.1 200 OK\r\nVia: 1.1 p\r\nProxy-Agent: x\r\n\r\n",
+                        "200-content-length": b"HTTP/1.1 200 Connection established\r\nContent-Length: 137\r\nContent-Type: text/html\r\n\r\n",
+                        "200-content-length-0": b"HTTP/1.1 200 Connection established\r\nContent-Length: 0\r\n\r\n",
+                        "200-chunked": b"HTTP/1.1 200 Connection established\r\nTransfer-Encoding: chunked\r\n\r\n"}[reply]
                 c.deliver(line)
                 inner["peer"] = H.HandshakePeer(c)
                 c.on_client_data = data
